@@ -3,6 +3,7 @@ performs the real terminate()/wait(), and records everything the oracles need.""
 import os
 import queue
 import signal
+import threading
 import time
 import multiprocessing.connection as mpc
 
@@ -170,7 +171,7 @@ def expected_items(items):
     """results of the persistent scenario target for the enqueued items, up to the first poison"""
     out = []
     for x in items:
-        if x in ('POISON', 'UNPICKLABLE'):
+        if x in ('POISON', 'UNPICKLABLE', 'STUCK'):
             break
         # ['T', v] = enqueue(v, tag='T'): a differently shaped input (keyword override of a default)
         out.append(('r', x[1], x[0]) if isinstance(x, list) else ('r', x))
@@ -259,6 +260,7 @@ def execute(case, ctx, cls=None, extra_kwargs=None, after_create=None):
         inject.arm(name, mode, inj.get('n', -1), inj.get('sig', 'SIGKILL'), inj.get('granularity', 'line'))
     w = None
     pipe = None
+    early = None
     try:
         try:
             w, pipe = make_worker(case, ctx, name, marker, cls=cls, extra_kwargs=extra_kwargs)
@@ -289,6 +291,23 @@ def execute(case, ctx, cls=None, extra_kwargs=None, after_create=None):
                 except BaseException as e:
                     obs.setdefault('enqueue_errors', []).append(type(e).__name__)
             obs['accepted'] = acc
+            if case.get('consumer') == 'early' and pipe is None:
+                # a consumer that is already reading (and will be blocked in next_result()) when the worker meets its end
+                early = {'got': [], 'end': None}
+
+                def consume():
+                    try:
+                        for v in w.results_iter():
+                            early['got'].append(enc(v))
+                            if len(early['got']) > 50:
+                                break
+                        early['end'] = 'stopped'
+                    except BaseException as e:
+                        early['end'] = 'raised:' + type(e).__name__
+                early['thread'] = threading.Thread(target=consume, daemon=True, name='verif-early-consumer')
+                early['thread'].start()
+                if case.get('consumer_lead'):
+                    time.sleep(case['consumer_lead'])
             if case.get('close'):
                 try:
                     bounded(w.close, 10)
@@ -442,6 +461,25 @@ def execute(case, ctx, cls=None, extra_kwargs=None, after_create=None):
                 obs['raw'] = raw
                 obs['stream_end'] = end
                 obs['stream'] = [r[2] for r in raw if isinstance(r, list) and r[1] is True]
+            elif early is not None:
+                early['thread'].join(30)
+                if early['thread'].is_alive():
+                    obs['stream_end'] = 'blocked'
+                    obs['stream'] = None
+                    obs['early_got'] = list(early['got'])
+                else:
+                    obs['stream'] = list(early['got'])
+                    obs['stream_end'] = early['end']
+                    if early['end'] == 'stopped':
+                        try:
+                            bounded(w.next_result, 30)
+                            obs['after_end'] = 'value'
+                        except queue.Empty:
+                            obs['after_end'] = 'empty'
+                        except Blocked:
+                            obs['after_end'] = 'blocked'
+                        except BaseException as e:
+                            obs['after_end'] = 'raised:' + type(e).__name__
             else:
                 def drain():
                     out = []
